@@ -522,3 +522,70 @@ pub fn all64<F: Fn(u8) -> bool>(f: F) -> bool {
        32 33 34 35 36 37 38 39 40 41 42 43 44 45 46 47 48 49 50 51 52 53 54 55 56 57 58 59 60 61 62 63);
     ok
 }
+
+// ------------------------------------------------------- contract helpers
+/// prey piece on i (inside prey_mask) has an orthogonally adjacent piece inside predator_mask of strictly greater strength
+pub fn threatened_spec(pb: &PieceBoardState, predator_mask: u64, prey_mask: u64, i: u8) -> bool {
+    bit(prey_mask, i)
+        && match at(pb, i) {
+            None => false,
+            Some((t, _)) => any_dir(|d| match nbr(i, d) {
+                Some(j) => {
+                    bit(predator_mask, j)
+                        && match at(pb, j) {
+                            Some((t2, _)) => strength(t2) > strength(t),
+                            None => false,
+                        }
+                }
+                None => false,
+            }),
+        }
+}
+/// C04 lines 1-2: `mover` = player to move now (B); A = !mover just moved and takes precedence
+pub fn goal_spec(pb: &PieceBoardState, mover: bool) -> Option<Terminal> {
+    if rabbit_on_goal(pb, !mover) {
+        Some(winner(!mover))
+    } else if rabbit_on_goal(pb, mover) {
+        Some(winner(mover))
+    } else {
+        None
+    }
+}
+/// some rabbit of `gold` exists: exists over 64 squares, unrolled
+pub fn has_rabbit(pb: &PieceBoardState, gold: bool) -> bool {
+    !all64(|i| at(pb, i) != Some((Piece::Rabbit, gold)))
+}
+/// C04 lines 3-4
+pub fn elimination_spec(pb: &PieceBoardState, mover: bool) -> Option<Terminal> {
+    if !has_rabbit(pb, mover) {
+        Some(winner(!mover))
+    } else if !has_rabbit(pb, !mover) {
+        Some(winner(mover))
+    } else {
+        None
+    }
+}
+
+impl kani::Arbitrary for Terminal {
+    fn any() -> Self {
+        if kani::any() {
+            Terminal::GoldWin
+        } else {
+            Terminal::SilverWin
+        }
+    }
+}
+impl kani::Arbitrary for Piece {
+    fn any() -> Self {
+        let k: u8 = kani::any();
+        kani::assume(k < 6);
+        Piece::ALL[k as usize]
+    }
+}
+impl kani::Arbitrary for Direction {
+    fn any() -> Self {
+        let k: u8 = kani::any();
+        kani::assume(k < 4);
+        DIRS[k as usize]
+    }
+}
